@@ -15,7 +15,10 @@ of this property:
   http.py      _on_response      write(status line + headers);
                                  HEAD or body-less status (1xx/204/304): no body; close iff res.close;
                                    drop the _clients entry; done
-                                 stream and body: first non-empty next(body) -> stream event
+                                 stream and body an iterator: first non-empty next(body) -> stream event
+                                 (a sized body - str/bytes/list - with the stream flag is written exactly like
+                                 one without it since the fix "str / bytes / list body with response.stream
+                                 set": `Body.sized` carries no flag)
                                  else: join the parts; if non-empty write (as one chunk when chunked);
                                    chunked -> terminator "0\r\n\r\n" (also for an empty body);
                                    close iff res.close; drop the _clients entry; done
